@@ -294,7 +294,7 @@ def c02_compose(ctx):
 
 def _stack_cases(tier):
     ks = (2, 3) if tier == "quick" else (2, 3, 4, 5)
-    return product_cases(k=ks, mode=("append-rel-offset", "stack-dates", "stack-none", "append-dates"), payload=("scalar", "vector"))
+    return product_cases(k=ks, mode=("append-rel-offset", "stack-dates", "stack-none", "append-dates", "append-dates-offset"), payload=("scalar", "vector"))
 
 
 @ob("C02.stack", cases=_stack_cases, mods=MODS, funcs=FUNCS, samples=(1, 2),
@@ -309,7 +309,7 @@ def c02_stack(ctx, k, mode, payload):
         full = list(shape) + ([] if payload == "scalar" else [3])
         arr = ctx.array(f"a{i}", full)
         kw = dict(space_dim=2, dimensions=list(d), origin=list(o), scalar=payload == "scalar")
-        if mode in ("stack-dates", "append-dates"):
+        if mode in ("stack-dates", "append-dates", "append-dates-offset"):
             dt = T0 + timedelta(minutes=11 * i * i + 7 * i)
             kw.update(date=dt, reference_date=ref)
             dates.append(dt)
@@ -327,7 +327,7 @@ def c02_stack(ctx, k, mode, payload):
         acc = [0]
         run = 0
         for i in range(1, k):
-            if mode == "append-rel-offset":
+            if mode in ("append-rel-offset", "append-dates-offset"):
                 off = ctx.real(f"off{i}", sample=(0.0, 50.0))
                 series.append(imgs[i], offset=off)
                 acc.append(off)
@@ -343,7 +343,11 @@ def c02_stack(ctx, k, mode, payload):
         s = series.time_slice(i)
         ctx.ensure(f"slice {i}: data of original {i}", same(s.img, arrs[i]))
         ctx.ensure(f"slice {i}: placement of the originals", and_(eq(list(s.origin), list(o)), eq(list(s.dimensions), list(d))))
-        if dates:
+        if dates and mode == "append-dates-offset":
+            # dated images appended WITH an offset: the offset is honoured exactly as for undated images (relative time of the original + offset), dates kept
+            ctx.ensure(f"slice {i}: date", s.date == dates[i])
+            ctx.ensure(f"slice {i}: relative time == original's + offset (dated images, too)", eq(s.time, imgs[i].time + acc[i]))
+        elif dates:
             ctx.ensure(f"slice {i}: date", s.date == dates[i])
             ctx.ensure(f"slice {i}: relative time == original's", s.time == imgs[i].time and s.time == (dates[i] - ref).total_seconds())
         elif mode == "append-rel-offset":
